@@ -8,9 +8,40 @@
 
 namespace SymEngine
 {
-umap_basic_basic opt_cse(const vec_basic &exprs);
+// Names of the unevaluated add/mul/pow markers used between opt_cse and
+// tree_cse. They are chosen per call so that they cannot collide with a
+// FunctionSymbol of the user (a user function named "add" used to be
+// rebuilt as a real addition).
+struct CSEMarkerNames {
+    std::string add, mul, pow;
+};
+
+static CSEMarkerNames cse_marker_names(const vec_basic &exprs)
+{
+    std::string prefix = "_cse_";
+    bool clash = true;
+    while (clash) {
+        clash = false;
+        for (const auto &e : exprs) {
+            for (const auto &f : function_symbols(*e)) {
+                const std::string &n
+                    = down_cast<const FunctionSymbol &>(*f).get_name();
+                if (n.compare(0, prefix.size(), prefix) == 0) {
+                    clash = true;
+                }
+            }
+        }
+        if (clash) {
+            prefix += "_";
+        }
+    }
+    return {prefix + "add", prefix + "mul", prefix + "pow"};
+}
+
+umap_basic_basic opt_cse(const vec_basic &exprs, const CSEMarkerNames &names);
 void tree_cse(vec_pair &replacements, vec_basic &reduced_exprs,
-              const vec_basic &exprs, umap_basic_basic &opt_subs);
+              const vec_basic &exprs, umap_basic_basic &opt_subs,
+              const CSEMarkerNames &names);
 
 class FuncArgTracker
 {
@@ -312,10 +343,14 @@ class OptsCSEVisitor : public BaseVisitor<OptsCSEVisitor>
 {
 public:
     umap_basic_basic &opt_subs;
+    const CSEMarkerNames &names;
     set_basic adds;
     set_basic muls;
     set_basic seen_subexp;
-    OptsCSEVisitor(umap_basic_basic &opt_subs_) : opt_subs(opt_subs_) {}
+    OptsCSEVisitor(umap_basic_basic &opt_subs_, const CSEMarkerNames &names_)
+        : opt_subs(opt_subs_), names(names_)
+    {
+    }
     bool is_seen(const Basic &expr)
     {
         return (seen_subexp.find(expr.rcp_from_this()) != seen_subexp.end());
@@ -353,7 +388,7 @@ public:
             if (is_a_Number(*ex)
                 and static_cast<const Number &>(*ex).is_negative()) {
                 vec_basic v({pow(x.get_base(), neg(x.get_exp())), integer(-1)});
-                opt_subs[expr] = function_symbol("pow", v);
+                opt_subs[expr] = function_symbol(names.pow, v);
             }
         }
     }
@@ -368,8 +403,8 @@ public:
             if (x.get_coef()->is_negative()) {
                 auto neg_expr = neg(x.rcp_from_this());
                 if (not is_a<Symbol>(*neg_expr)) {
-                    opt_subs[expr]
-                        = function_symbol("mul", {integer(-1), neg_expr});
+                    opt_subs[expr] = function_symbol(
+                        names.mul, {integer(-1), neg_expr});
                     seen_subexp.insert(neg_expr);
                     expr = neg_expr;
                 }
@@ -401,18 +436,18 @@ vec_basic set_as_vec(const set_basic &s)
     return result;
 }
 
-umap_basic_basic opt_cse(const vec_basic &exprs)
+umap_basic_basic opt_cse(const vec_basic &exprs, const CSEMarkerNames &names)
 {
     // Find optimization opportunities in Adds, Muls, Pows and negative
     // coefficient Muls
     umap_basic_basic opt_subs;
-    OptsCSEVisitor visitor(opt_subs);
+    OptsCSEVisitor visitor(opt_subs, names);
     for (auto &e : exprs) {
         e->accept(visitor);
     }
 
-    match_common_args("add", set_as_vec(visitor.adds), opt_subs);
-    match_common_args("mul", set_as_vec(visitor.muls), opt_subs);
+    match_common_args(names.add, set_as_vec(visitor.adds), opt_subs);
+    match_common_args(names.mul, set_as_vec(visitor.muls), opt_subs);
 
     return opt_subs;
 }
@@ -425,6 +460,7 @@ private:
     set_basic &to_eliminate;
     set_basic &excluded_symbols;
     vec_pair &replacements;
+    const CSEMarkerNames &names;
     unsigned next_symbol_index = 0;
 
 public:
@@ -432,9 +468,10 @@ public:
     using TransformVisitor::result_;
     RebuildVisitor(umap_basic_basic &subs_, umap_basic_basic &opt_subs_,
                    set_basic &to_eliminate_, set_basic &excluded_symbols_,
-                   vec_pair &replacements_)
+                   vec_pair &replacements_, const CSEMarkerNames &names_)
         : subs(subs_), opt_subs(opt_subs_), to_eliminate(to_eliminate_),
-          excluded_symbols(excluded_symbols_), replacements(replacements_)
+          excluded_symbols(excluded_symbols_), replacements(replacements_),
+          names(names_)
     {
     }
     RCP<const Basic> apply(const RCP<const Basic> &orig_expr) override
@@ -480,11 +517,11 @@ public:
         for (const auto &a : fargs) {
             newargs.push_back(apply(a));
         }
-        if (x.get_name() == "add") {
+        if (x.get_name() == names.add) {
             result_ = add(newargs);
-        } else if (x.get_name() == "mul") {
+        } else if (x.get_name() == names.mul) {
             result_ = mul(newargs);
-        } else if (x.get_name() == "pow") {
+        } else if (x.get_name() == names.pow) {
             result_ = pow(newargs[0], newargs[1]);
         } else {
             result_ = x.create(newargs);
@@ -493,7 +530,8 @@ public:
 };
 
 void tree_cse(vec_pair &replacements, vec_basic &reduced_exprs,
-              const vec_basic &exprs, umap_basic_basic &opt_subs)
+              const vec_basic &exprs, umap_basic_basic &opt_subs,
+              const CSEMarkerNames &names)
 {
     set_basic to_eliminate;
     set_basic seen_subexp;
@@ -536,7 +574,7 @@ void tree_cse(vec_pair &replacements, vec_basic &reduced_exprs,
     umap_basic_basic subs;
 
     RebuildVisitor rebuild_visitor(subs, opt_subs, to_eliminate,
-                                   excluded_symbols, replacements);
+                                   excluded_symbols, replacements, names);
 
     for (auto &e : exprs) {
         auto reduced_e = rebuild_visitor.apply(e);
@@ -548,9 +586,10 @@ void cse(vec_pair &replacements, vec_basic &reduced_exprs,
          const vec_basic &exprs)
 {
     // Find other optimization opportunities.
-    umap_basic_basic opt_subs = opt_cse(exprs);
+    const CSEMarkerNames names = cse_marker_names(exprs);
+    umap_basic_basic opt_subs = opt_cse(exprs, names);
 
     // Main CSE algorithm.
-    tree_cse(replacements, reduced_exprs, exprs, opt_subs);
+    tree_cse(replacements, reduced_exprs, exprs, opt_subs, names);
 }
 } // namespace SymEngine
